@@ -63,9 +63,31 @@ def _contracts():
 NAMES = ["a", "b", "c", "d", "fresh", "absent"]
 
 
+def _contracts_deep():
+    ga = grids.terms(["a", "b"], [-1, 0, 1, 2], [0, 2])
+    A = [[]] + [[t] for t in ga] + [list(c) for c in itertools.combinations(ga[:8], 2)]
+    gg = [t for t in grids.terms(["a", "b", "c", "d"], [-1, 0, 1], [0, 1]) if ("c" in t[0] or "d" in t[0]) and len(t[0]) <= 3]
+    for a in A:
+        for g in grids.lists_upto(gg[::3], 2, minlen=1):
+            yield {"i": ["a", "b"], "o": ["c", "d"], "a": a, "g": g}
+
+
 def cases(tier, seed):
+    return grids.dedupe(_cases(tier, seed)) if tier == "thorough" else _cases(tier, seed)
+
+
+def _cases(tier, seed):
     sl = seed % NSLICES
     k = 0
+    if tier == "thorough":
+        for j, c in enumerate(_contracts_deep()):
+            if j % 7 == seed % 7:
+                yield {"fam": "single", "c": c}
+        names = ["a", "b", "c", "d", "t"]
+        pairs = [(s_, t_) for s_ in names for t_ in names if s_ != t_]
+        for c in list(_contracts())[::6]:
+            for m1, m2 in itertools.product(pairs, repeat=2):
+                yield {"fam": "maps", "c": c, "maps": [list(m1), list(m2)]}
     for c in _contracts():
         yield {"fam": "single", "c": c}
     maps = [[("a", "t"), ("b", "a"), ("t", "b")], [("c", "t"), ("d", "c"), ("t", "d")], [("a", "x"), ("c", "y")], [("a", "b"), ("b", "e")],
